@@ -159,7 +159,7 @@ def judge(ctx, spec, res):
         reach = {}
         for o in h["obligations"]:
             v = o["verdict"]
-            if o.get("verdict2") and o["verdict2"] != v and not o["folded"]:
+            if o.get("verdict2") in ("sat", "unsat") and v in ("sat", "unsat") and o["verdict2"] != v and not o["folded"]:
                 ctx.errors.append("%s/%s %s: solvers disagree (%s vs %s)" % (res["program"], h["harness"], o["label"], v, o["verdict2"]))
             if o["kind"] == "reach":
                 if v not in ("sat", "unsat"):
